@@ -19,7 +19,8 @@ def run(chk, prog):
     chk.rule(R1, 'In the function containing the dyn call ExternalFunction::call, with atoms A = binding.lookahead_safe, '
              'B = in_string_evaluation(), C = state_snapshot_at_last_new_line.is_some(): every valuation reaching REFUSE '
              '(add_error(.., false) then return) has A=F and B=T; every one reaching DEFER '
-             '(saw_lookahead_unsafe_function_after_new_line = true then return) has A=F and C=T; every one reaching CALL '
+             '(saw_lookahead_unsafe_function_after_new_line = true then return) has A=F, C=T and B=F (the rewind it asks for '
+             'cannot happen during string evaluation, so inside a string the call must be REFUSED, not deferred); every one reaching CALL '
              'has A=T, or A=F and B=F and C=F (unknown does not count as F).')
     R2 = 'C12.arguments'
     chk.rule(R2, 'Between the argument-pop loop and CALL the argument vector is reversed on every path; the loop bound is '
@@ -85,8 +86,8 @@ def run(chk, prog):
                    'REFUSE does not go on to CALL', 'after refusing, the function is still called', F.loc(bb))
     for i, bb in enumerate(defer):
         vs = gf.valuations_at(bb, ['A', 'B', 'C'])
-        ok = bool(vs) and all(v['A'] is False and v['C'] is True for v in vs)
-        chk.decide(R1, chk.key(R1, F.short, 'DEFER#%d' % i), ok, 'DEFER reached only with A=F, C=T',
+        ok = bool(vs) and all(v['A'] is False and v['C'] is True and v['B'] is False for v in vs)
+        chk.decide(R1, chk.key(R1, F.short, 'DEFER#%d' % i), ok, 'DEFER reached only with A=F, C=T and B=F',
                    'the look-ahead abort is requested with %s: it must apply exactly to unsafe functions after a '
                    'pending newline' % fmt(vs), F.loc(bb))
         reach_call = call_bb in g.reachable([bb])
